@@ -23,6 +23,11 @@ def make_editor(schema, frags):
         sel = tuple(sel)
         # 1 unknown field
         yield ("unknown_field", sel + (Field("nope"),))
+        # ... also where a literal condition says the server will never send it (a document is valid or not as written)
+        yield ("unknown_field", sel + (Field("nope", directives=[("skip", "=true")]),))
+        yield ("unknown_field", sel + (Field("nope", directives=[("include", "=false")]),))
+        yield ("undefined_fragment", sel + (Spread("Undefined", directives=[("skip", "=true")]),))
+        yield ("unknown_type_condition", sel + (Inline("NoSuchType", [Field("__typename")], directives=[("include", "=false")]),))
         if kind == "UNION":
             yield ("unknown_field", sel + (Field("id"),))
         # 4 undefined fragment
@@ -58,8 +63,13 @@ def make_editor(schema, frags):
                 # object-typed and abstract-typed fields are told apart: only the former is a listed finding
                 desc = "missing_subselection" if schema.kind(tn) == "OBJECT" else "missing_subselection_abstract"
                 yield (desc, sel[:i] + (Field(s.name, None, s.alias, s.args),) + sel[i + 1:])
+                yield (desc, sel[:i] + (Field(s.name, None, s.alias, s.args, directives=[("include", "=false")]),) + sel[i + 1:])
+                if s.sel:
+                    # a composite field that is statically skipped still needs a VALID sub-selection
+                    yield ("unknown_field", sel[:i] + (Field(s.name, tuple(s.sel) + (Field("nope"),), s.alias, s.args, directives=[("skip", "=true")]),) + sel[i + 1:])
             else:
                 yield ("subselection_on_leaf", sel[:i] + (Field(s.name, [Field("x")], s.alias, s.args),) + sel[i + 1:])
+                yield ("subselection_on_leaf", sel[:i] + (Field(s.name, [Field("x")], s.alias, s.args, directives=[("skip", "=true")]),) + sel[i + 1:])
                 yield ("subselection_on_leaf", sel[:i] + (Field(s.name, [Field("__typename")], s.alias, s.args),) + sel[i + 1:])
                 # ... a sub-selection made of fragments only (no field at all in it)
                 any_frag = next(iter(frags), None)
